@@ -6,6 +6,9 @@ layout; interop with an independent implementation.  Property theorems only (lem
 import KitModel.Enc
 import KitProofs.Lemmas.EncLoop
 import KitProofs.Lemmas.EncSegs
+import KitProofs.Lemmas.EncHeader
+import KitProofs.Lemmas.EncDecrypt
+import KitProofs.Lemmas.EncToy
 
 namespace Kit.Enc.C01
 open Kit Kit.Enc
@@ -42,12 +45,8 @@ example : (⟨[], [1, 2, 3, 4, 5], [0, 2, 0, 1], true, .eof⟩ : Reader).term = 
 /-- No call at all for empty content. -/
 theorem processSegments_empty (segSize maxSeg : Nat) (hs : 0 < segSize) (fn : ProcFn) (r : Reader)
     (heof : r.term = .eof) (hempty : r.stream = []) :
-    processSegments segSize maxSeg fn r = ⟨[], [], .ok⟩ := by
-  have hfails : r.term.fails = false := by rw [heof]; rfl
-  have hconf : confirmed segSize r none = [] := by
-    simp [confirmed, visible, hfails, hempty, segments_nil]
-  rw [processSegments_spec segSize maxSeg fn hs r, hconf, runSegs_nil]
-  simp [finOf, hfails]
+    processSegments segSize maxSeg fn r = ⟨[], [], .ok⟩ :=
+  processSegments_nil segSize maxSeg hs fn r heof hempty
 
 /-- The split itself: `⌈|p|/S⌉` segments, all full and non-final except the last, which has
     `1..S` bytes and carries the last flag; concatenated they are `p`. -/
@@ -55,6 +54,116 @@ theorem segments_layout (S : Nat) (hS : 0 < S) (p : Bytes) :
     (segments S p).length = (p.length + S - 1) / S ∧ Shape S (segments S p) ∧
     ((segments S p).map (·.1)).flatten = p :=
   ⟨segments_length S hS p, segments_shape S hS p, segments_concat S hS p⟩
+
+/-! ### layout -/
+
+/-- `Encrypt` writes exactly what a README-only encoder writes: the three-line header, then the
+    sealed segments — for every script of the plaintext source. -/
+theorem encrypt_layout (c : Crypto) (cd : Codec) (P : EncParams) (pwf : P.WF) (o : EncryptOpts)
+    (fk np wfk : Bytes) (r : Reader) (heof : r.term = .eof)
+    (hhdr : (signHeader c cd P fk (cd.render (mkManifest o wfk np))).length ≤ P.segSize)
+    (hcount : (segments P.segSize r.stream).length ≤ P.maxSeg + 1) :
+    encryptImpl c cd P o fk np wfk r = (specEncrypt c cd P fk (mkManifest o wfk np) r.stream, .ok) := by
+  have hfails : r.term.fails = false := by rw [heof]; rfl
+  have hconf : confirmed P.segSize r none = segments P.segSize r.stream := by
+    simp [confirmed, visible, hfails]
+  have hfin : finOf r = .ok := by simp [finOf, hfails]
+  have hnot : ¬ (signHeader c cd P fk (cd.render (mkManifest o wfk np))).length > P.segSize := by omega
+  unfold encryptImpl
+  simp only [hnot, if_false]
+  rw [processSegments_spec P.segSize P.maxSeg _ pwf.seg_pos r, hconf, hfin,
+    runSegs_encrypt c P o.cph _ np P.segSize pwf.seg_pos _ 0 (segments_shape _ pwf.seg_pos _) (by omega)]
+  rw [specEncrypt_eq, signHeader_eq]
+  rfl
+
+/-- The layout of the specification document: header of three newline-terminated lines, then
+    `⌈|p|/S⌉` sealed segments, each `overhead` bytes longer than its plaintext; none for `p = []`. -/
+theorem spec_layout (c : Crypto) (cd : Codec) (P : EncParams) (pwf : P.WF) (lc : c.Lawful P.overhead)
+    (fk : Bytes) (m : Manifest) (p : Bytes) :
+    specEncrypt c cd P fk m p =
+      P.scheme ++ [10] ++ cd.render m ++ [10] ++ cd.b64 (headerMac c P fk (cd.render m)) ++ [10] ++
+        ((sealedSegs c P m.cph (payloadKey c P fk m.np) m.np 0 (segments P.segSize p)).map (·.1)).flatten ∧
+    (sealedSegs c P m.cph (payloadKey c P fk m.np) m.np 0 (segments P.segSize p)).length
+      = (p.length + P.segSize - 1) / P.segSize ∧
+    (specEncrypt c cd P fk m p).length =
+      (P.scheme ++ [10] ++ cd.render m ++ [10] ++ cd.b64 (headerMac c P fk (cd.render m)) ++ [10]).length
+        + p.length + P.overhead * ((p.length + P.segSize - 1) / P.segSize) := by
+  have hflat : ∀ (segs : List (Bytes × Bool)) (i : Nat),
+      specPayload c P m.cph (payloadKey c P fk m.np) m.np i segs =
+        ((sealedSegs c P m.cph (payloadKey c P fk m.np) m.np i segs).map (·.1)).flatten := by
+    intro segs; induction segs with
+    | nil => intro i; rfl
+    | cons a t ih => intro i; obtain ⟨d, l⟩ := a; rw [specPayload_cons, sealedSegs_cons, ih]; rfl
+  have hlen : ∀ (segs : List (Bytes × Bool)) (i : Nat),
+      (sealedSegs c P m.cph (payloadKey c P fk m.np) m.np i segs).length = segs.length := by
+    intro segs; induction segs with
+    | nil => intro i; rfl
+    | cons a t ih => intro i; obtain ⟨d, l⟩ := a; rw [sealedSegs_cons]; simp [ih]
+  have hplen : ∀ (segs : List (Bytes × Bool)) (i : Nat),
+      (specPayload c P m.cph (payloadKey c P fk m.np) m.np i segs).length =
+        ((segs.map (·.1)).flatten).length + P.overhead * segs.length := by
+    intro segs; induction segs with
+    | nil => intro i; rfl
+    | cons a t ih =>
+      intro i; obtain ⟨d, l⟩ := a
+      rw [specPayload_cons, List.length_append, lc.seal_length, ih]
+      simp only [List.map_cons, List.flatten_cons, List.length_append, List.length_cons]
+      rw [Nat.mul_add]; omega
+  refine ⟨?_, ?_, ?_⟩
+  · rw [specEncrypt_eq, hflat]; rfl
+  · rw [hlen, segments_length _ pwf.seg_pos]
+  · rw [specEncrypt_eq, List.length_append, hplen, segments_concat _ pwf.seg_pos, segments_length _ pwf.seg_pos]
+    simp only [hdrBytes]; omega
+
+/-- `readHeader`: for any stream that starts with a well-formed header of at most `hdrMax` bytes and
+    any script of a non-failing source, the manifest and MAC lines are returned and the stream
+    continues with exactly the rest. -/
+theorem readHeader_spec (P : EncParams) (ml cl rest : Bytes) (wf : HdrWF P.scheme ml cl)
+    (hmax : (hdrBytes P.scheme ml cl).length ≤ P.hdrMax) (r : Reader) (heof : r.term = .eof)
+    (hstream : r.stream = hdrBytes P.scheme ml cl ++ rest) :
+    ∃ r', readHeader P r = .ok (ml, cl, r') ∧ r'.stream = rest ∧ r'.term = .eof :=
+  readHeader_complete true P ml cl rest wf hmax r heof hstream
+
+example : HdrWF [100] [123, 125] [65] := ⟨by simp, by simp, by simp, by simp, by simp, by simp⟩
+
+/-- **Round trip / interop.** `Decrypt` opens every document of the specification encoder
+    (`specEncrypt`, written from README.md; by `encrypt_layout` also every document of `Encrypt`)
+    and releases exactly the plaintext with a clean EOF — for every lawful AEAD and codec, every
+    file key, manifest, plaintext, and every script of the document source. -/
+theorem decrypt_encrypt (c : Crypto) (cd : Codec) (P : EncParams) (pwf : P.WF)
+    (lc : c.Lawful P.overhead) (lcd : cd.Lawful P) (fk : Bytes) (hfk : fk.length = P.fkLen)
+    (m : Manifest) (hm : m.valid P = true) (p : Bytes) (o : DecryptOpts)
+    (hkn : o.keyName ≠ [] ∨ m.keyName ≠ []) (hunwrap : ∀ kn, o.unwrap m kn = fk)
+    (hhdr : (signHeader c cd P fk (cd.render m)).length ≤ P.hdrMax)
+    (hcount : (segments P.segSize p).length ≤ P.maxSeg + 1)
+    (r : Reader) (heof : r.term = .eof) (hstream : r.stream = specEncrypt c cd P fk m p) :
+    decryptImpl c cd P o r = (p, .ok) := by
+  rw [specEncrypt_eq, ← signHeader_eq] at hstream
+  obtain ⟨r', hrs, hrt, hdec⟩ := decrypt_of_honest_header true c cd P pwf lc lcd fk hfk m hm o hkn hunwrap _ r heof hhdr hstream
+  unfold decryptImpl
+  rw [hdec]
+  have hfails : r'.term.fails = false := by rw [hrt]; rfl
+  have hconf : confirmed (P.segSize + P.overhead) r' none =
+      sealedSegs c P m.cph (payloadKey c P fk m.np) m.np 0 (segments P.segSize p) := by
+    simp only [confirmed, visible, hfails, Bool.false_and, Bool.false_eq_true, if_false, Option.toList_none,
+      List.nil_append, hrs]
+    exact segments_specPayload c P m.cph _ m.np P.segSize pwf.seg_pos lc _ 0 (segments_shape _ pwf.seg_pos _)
+  have hfin : finOf r' = .ok := by simp [finOf, hfails]
+  have hpos : 0 < P.segSize + P.overhead := by have := pwf.seg_pos; omega
+  rw [processSegments_spec _ _ _ hpos r', hconf, hfin]
+  obtain ⟨h1, h2⟩ := runSegs_decrypt_sealed c P m.cph (payloadKey c P fk m.np) m.np P.segSize pwf.seg_pos lc
+    (segments P.segSize p) 0 (segments_shape _ pwf.seg_pos _) (by omega)
+  rw [h1, h2, segments_concat _ pwf.seg_pos]
+
+/-- The parameters regenerated from the Go source satisfy what the theorems assume. -/
+theorem generated_wf : EncParams.generated.WF :=
+  ⟨by decide, by decide, by decide⟩
+
+/-! Non-vacuity: a lawful AEAD and a lawful codec exist (`KitProofs/Lemmas/EncToy.lean`), for the
+    generated parameters, with a valid manifest and a resolvable key name. -/
+example : Toy.toyCrypto.Lawful EncParams.generated.overhead := Toy.toyCrypto_lawful
+example : Toy.toyCodec.Lawful EncParams.generated := Toy.toyCodec_lawful _
+example : (⟨[107], 1, [1, 2, 3], 2, [1, 2, 3, 4, 5, 6, 7]⟩ : Manifest).valid EncParams.generated = true := by decide
 
 /-! ### tables (over the facts regenerated from algorithms.go / ciphers.go / scheme.go) -/
 
